@@ -227,6 +227,14 @@ fn run_image_rt(input: &Value) -> Case {
     let (r0, r1) = (input["r0"].as_u64().unwrap_or(0) as usize, input["r1"].as_u64().unwrap_or(bh as u64) as usize);
     let (c0, c1) = (input["c0"].as_u64().unwrap_or(0) as usize, input["c1"].as_u64().unwrap_or(bw as u64) as usize);
     let img = if input["crop"].as_bool().unwrap_or(false) { base.crop(r0..r1, c0..c1) } else { base };
+    // a crop of the crop (selectors relative to the first window)
+    let img = match input["crop2"].as_array() {
+        Some(a) if a.len() == 4 => {
+            let g = |i: usize| a[i].as_u64().unwrap_or(0) as usize;
+            img.crop(g(0)..g(1), g(2)..g(3))
+        }
+        _ => img,
+    };
     let pix: Vec<String> = img.iter().map(|p| coq_rgba(*p)).collect();
     let (h, w) = (img.height(), img.width());
     let img2 = img.clone();
@@ -1470,12 +1478,18 @@ pub fn generate(rng: &mut Rng, n: usize, tier: &str) -> Vec<Value> {
                 v.push(json!({"kind": "image", "stream": rng.chance(1, 2), "doc": j_to_spec(&doc)}));
             }
             18..=27 => {
-                let (bh, bw) = (rng.below(6), rng.below(6));
+                let (bh, bw) = if rng.chance(1, 4) { (rng.below(13), rng.below(13)) } else { (rng.below(6), rng.below(6)) };
                 let px = rng.bytes((4 * bh * bw) as usize);
                 let crop = rng.chance(1, 2);
                 let (r0, c0) = (rng.below(bh + 1), rng.below(bw + 1));
                 let (r1, c1) = (r0 + rng.below(bh + 1 - r0), c0 + rng.below(bw + 1 - c0));
-                v.push(json!({"kind": "image_rt", "bh": bh, "bw": bw, "px": jbytes(&px), "crop": crop, "r0": r0, "r1": r1, "c0": c0, "c1": c1}));
+                let mut case = json!({"kind": "image_rt", "bh": bh, "bw": bw, "px": jbytes(&px), "crop": crop, "r0": r0, "r1": r1, "c0": c0, "c1": c1});
+                if crop && rng.chance(1, 3) {
+                    let (h1, w1) = (r1 - r0, c1 - c0);
+                    let (a, c) = (rng.below(h1 + 1), rng.below(w1 + 1));
+                    case["crop2"] = json!([a, a + rng.below(h1 + 1 - a), c, c + rng.below(w1 + 1 - c)]);
+                }
+                v.push(case);
             }
             28..=35 => {
                 let c = *rng.pick(&[1u64, 3, 4]);
